@@ -153,7 +153,7 @@ def build(chain_len):
         likes = []
         prev = base
         for i in range(chain_len):
-            num = 2 + i
+            num = 2 + i if chain_len <= 6 else 200 + i      # (cells 8, 9, ... are taken by the fixed part)
             ov = choose_overrides(ch, 'c%d' % num, prev)
             like_card = '%d like %d but %s' % (num, prev.num, but_text(ov, ch, 'c%d' % num))
             expl = apply_override(prev.copy(num), ov)
@@ -272,6 +272,8 @@ def scenarios(tier):
             Scn('like2', build(2), 4 if q else 5, 5, 'LIKE of LIKE'),
             Scn('like3', build(3), 3 if q else 4, 4, 'chain of three'),
             Scn('like6', build(6), 2 if q else 3, 3, 'chain of six LIKE cells'),
+            Scn('like12', build(12), 1 if q else 2, 2, 'chain of twelve LIKE cells'),
+            Scn('like30', build(30), 0 if q else 1, 1, 'chain of thirty LIKE cells'),
             Scn('like-lattice', build_lattice, 4 if q else None, None,
                 'LIKE n BUT copies of a lattice cell (FILL=u with per-cell --lattice ranges, or a FILL array)')]
 
